@@ -45,8 +45,10 @@ def check(ck):
             ok = c is not None and unparse(c.func.value) == "scalar_type" and [unparse(a) for a in c.args] == [first]
             ck.ob(f"{rel.split('/')[2]}.scalar_coercer delegates to scalar_type.{method}({first})", ok, f, c or f.node, construct=f"delegate:{method}")
         # the wrappers around the generic coercers short-circuit exactly null
-        from .c04 import input_null_wrapper_table
+        from .c04 import input_null_wrapper_table, _input_wrappers
         input_null_wrapper_table(ck, repo)
+        # ... and the list / non-null wrappers hand on what the scalar returned, not the raw value (C04.R5)
+        _input_wrappers(ck, repo)
         for rel, deco in (("tartiflette/coercers/inputs/scalar_coercer.py", "tartiflette.coercers.inputs.null_coercer.null_coercer_wrapper"),
                           ("tartiflette/coercers/outputs/scalar_coercer.py", "tartiflette.coercers.outputs.null_coercer.null_coercer_wrapper"),
                           ("tartiflette/coercers/literals/scalar_coercer.py", "tartiflette.coercers.literals.null_and_variable_coercer.null_and_variable_coercer_wrapper")):
